@@ -7,6 +7,7 @@ import gv
 PROP = "C11"
 REQ_PROPS = ["GV.Props.Props_C11"]
 REQ_RUN = ["GV.Query.Run"]
+BINS = ["c11"]
 
 TRUSTED = [
     "Coq 8.16.1 kernel (coqc; vm_compute used to run the model; no native_compute)",
